@@ -255,6 +255,49 @@ fn conn_search() {
     println!("{{\"found\": false, \"searched\": \"14 frames written by the real Connection and read back through a pipe in chunks of 1,2,3,5,7,64 bytes and all at once; stream complete and cut at 3 places\"}}");
 }
 
+/// T6 stand-in (bounded): Connection::write_decimal, reached through write_frame(Integer(v)), against an independent
+/// decimal conversion; every power of ten and its neighbours, every power of two and its neighbours, both signs, and
+/// `n` pseudo-random values.
+fn decimal_search(n: u64) {
+    use bitcask::net::connection::Connection;
+    fn dec(v: i64) -> Vec<u8> {
+        let mut m: u128 = if v < 0 { (-(v as i128)) as u128 } else { v as u128 };
+        let mut d = Vec::new();
+        if m == 0 { d.push(b'0'); }
+        while m > 0 { d.push(b'0' + (m % 10) as u8); m /= 10; }
+        if v < 0 { d.push(b'-'); }
+        d.reverse();
+        d
+    }
+    let mut vals: Vec<i64> = vec![0, 1, -1, i64::MAX, i64::MIN, i64::MAX - 1, i64::MIN + 1];
+    let mut p: i128 = 1;
+    while p <= i64::MAX as i128 { for d in [-1i128, 0, 1] { for sg in [1i128, -1] { let x = sg * (p + d); if x >= i64::MIN as i128 && x <= i64::MAX as i128 { vals.push(x as i64); } } } p *= 10; }
+    for sh in 0..63 { let q = 1i64 << sh; vals.push(q); vals.push(q - 1); vals.push(-q); vals.push(-q - 1); vals.push(q.wrapping_add(1)); }
+    let mut x: u64 = 0x9E3779B97F4A7C15;
+    for i in 0..n { x ^= x << 13; x ^= x >> 7; x ^= x << 17; let v = x as i64; vals.push(if i % 3 == 0 { v >> (x % 64) } else { v }); }
+    let rt = tokio::runtime::Builder::new_current_thread().enable_all().build().unwrap();
+    let total = vals.len();
+    rt.block_on(async {
+        for chunk in vals.chunks(4096) {
+            let mut wire = std::io::Cursor::new(Vec::new());
+            {
+                let mut w = Connection::new(&mut wire);
+                for v in chunk { w.write_frame(&Frame::Integer(*v)).await.unwrap(); }
+            }
+            let mut want = Vec::new();
+            for v in chunk { want.push(b':'); want.extend(dec(*v)); want.extend(b"\r\n"); }
+            if wire.get_ref() != &want {
+                // find the first value that differs
+                let mut off = 0;
+                for v in chunk { let mut e = vec![b':']; e.extend(dec(*v)); e.extend(b"\r\n"); let got = &wire.get_ref()[off.min(wire.get_ref().len())..(off + e.len()).min(wire.get_ref().len())];
+                    if got != &e[..] { println!("{{\"found\": true, \"kind\": \"decimal\", \"props\": \"C08,C06\", \"value\": {}, \"observed\": {:?}, \"expected\": {:?}}}", v, String::from_utf8_lossy(got), String::from_utf8_lossy(&e)); std::process::exit(0); }
+                    off += e.len(); }
+            }
+        }
+    });
+    println!("{{\"found\": false, \"evaluations\": {}, \"searched\": \"write_frame(Integer(v)) for {} values (powers of ten and two with neighbours, extremes, xorshift pseudo-random) against an independent decimal conversion\"}}", total, total);
+}
+
 // ---------------------------------------------------------------------------------------------------
 // storage scenarios: every one runs the real store in a fresh temp dir and compares with a map model
 mod store {
@@ -432,6 +475,7 @@ fn main() {
             println!("{{\"found\": false}}");
         }
         Some("conn-search") => conn_search(),
+        Some("decimal-search") => decimal_search(a.get(2).map(|s| s.parse().unwrap()).unwrap_or(200000)),
         Some("frame-one") => frame_one(&a[2], a.get(3).map(|s| s.parse().unwrap()).unwrap_or(0)),
         Some("frame-deep") => {
             // deep nesting in this (child) process: an abort here is the observation
